@@ -259,7 +259,7 @@ Proof.
   destruct (s =s c_pid cl'); [reflexivity|]. eapply cleanup_claim_entry_other; eauto.
 Qed.
 
-Lemma sn_mfd_claim s cl : sn_claim s = Some cl -> sn_mfd s = sn_marked s || c_del cl.
+Lemma sn_mfd_claim s cl : sn_claim s = Some cl -> sn_mfd s = sn_marked s || c_gone cl.
 Proof. intros E. unfold sn_mfd, sn_deleted. rewrite E. reflexivity. Qed.
 
 (* ================= NodePoolState in the closing round ================= *)
@@ -422,7 +422,7 @@ Definition SM (a : api) (c : cache) (st : npstate) (k : string) : Prop :=
       aget k (ps_map st) = Some (c_pool cl) /\
       exists D, mem k (fst (ps_get (c_pool cl) st)) = negb D /\ mem k (snd (ps_get (c_pool cl) st)) = D /\
                 (if c_pid cl =s "" then D = false
-                 else exists b, ocm (c_pid cl) c = Some (Some cl, b) /\ D = b || c_del cl)
+                 else exists b, ocm (c_pid cl) c = Some (Some cl, b) /\ D = b || c_gone cl)
   | None => aget k (ps_map st) = None
   end.
 
